@@ -42,7 +42,7 @@
     apply_leaves_origin apply_appends_one_link history_keeps_chains
     lazy_trace_semantics trace_chain_wellnested lazy_raw_chain_wellnested
     apply_transformer_leaves_origins apply_transformer_concatenates history_mixed_keeps_chains
-    apply_transformer_runs_in_sequence attr_callable_changes_only_selected
+    apply_transformer_runs_in_sequence attr_callable_changes_only_selected substitute_map_are_map_text
     emptytag_wellnested whitespace_filter_wellnested doctype_inserter_wellnested
     ns_flattener_wellnested_partial ns_flattener_wellnested_ns_partial
 -/
@@ -484,6 +484,17 @@ theorem attr_callable_changes_only_selected (n : QName) (f : QName → AttrList 
 example : setAttrFn (qn 'k') (fun t _ => some t.loc)
     [(some .enter, .ev (.start (qn 'a') [])), (some .exit, .ev (.end_ (qn 'a')))] =
     [(some .enter, .ev (.start (qn 'a') [(qn 'k', ['a'])])), (some .exit, .ev (.end_ (qn 'a')))] := by decide
+
+/-- substitute() and map(f, TEXT) / apply(user function) as driven are instances of `map(f, TEXT)` for a
+    function on text data: `map_text_changes_only_selected_text` and `map_text_preserves_wellnested` speak
+    about them. -/
+theorem substitute_map_are_map_text (p r : Str) (n : Nat) (s : MStream) :
+    substitute p r n s = mapText (fun t sf => (subst p r n t, sf)) s ∧
+    mapBang false s = mapText (fun t sf => (bang t, sf)) s :=
+  ⟨substitute_is_map_text p r n s, map_bang_text_is_map_text s⟩
+
+example : substitute ['a'] ['b'] 0 [(some .outside, .ev (.text ['a', 'x', 'a'] false)), (none, .ev (.text ['a'] false))] =
+    [(some .outside, .ev (.text ['b', 'x', 'b'] false)), (none, .ev (.text ['a'] false))] := by decide
 
 /-! ## the chain as the code runs it: lazily interleaved links (`Model/TfLazy.lean`) -/
 
